@@ -10,7 +10,8 @@ RULE = ('cases: a resolvable C01 string (molecule model x partition x rendering)
         'fragment-less (virtual) nodes attached only by order-0 edges to random real nodes (and to each other), '
         'and 0-2 order-0 edges between non-adjacent real nodes; the decorated base graph is written by the own '
         'writer with a random root (virtual node first, in the middle, in a branch, last; order-0 chain edges, '
-        'branch edges and ring bonds) and also handed to from_graph with the nodes inserted in random order. '
+        'branch edges and ring bonds) and also handed to from_graph with the nodes inserted in random order (30 %: '
+        'plus a fragment-less node without any edge). '
         'Oracle (metamorphic): the fine graph is isomorphic to the model and to the resolution of the undecorated '
         'string; every real coarse node has exactly the atoms of its own fragment (fragname, count, graph '
         'attribute; C02 mapping invariant), virtual nodes have none; raising one virtual edge to order 1 must '
@@ -91,9 +92,14 @@ def gen(R, tier):
     order = list(base.nodes)
     R.shuffle(order)
     nontriv = nv >= 2 or any(p < len(seq) - 1 for p in vpos)
+    graph_nodes = [[n, names[n]] for n in order]
+    if R.chance(0.3):
+        # (only expressible through from_graph) a fragment-less node without any edge
+        graph_nodes.insert(R.randint(0, len(graph_nodes)), [len(names) + 5, R.choice(['V', 'W'])])
+        feats.add('isolated_virtual_node_in_graph')
     return dict(input=full, original=s, bad=bad, model=m.to_json(), features=sorted(feats), nontrivial=nontriv,
                 frag_block=info['frag_block'], names=names, virtual=virt,
-                base_nodes=[[n, names[n]] for n in order],
+                base_nodes=graph_nodes,
                 base_edges=[[a, b, o] for a, b, o in base.edges(data='order')])
 
 
